@@ -239,8 +239,11 @@ def drive_and_validate(work, gopt, jobs, twice=False):
 
 def describe(defrec, case):
     cfg = defrec["cfg"]
-    return {"mode": cfg["mode"], "root_unknown_mode": cfg["nodes"][0]["um"], "root_require_order": cfg["nodes"][0]["ro"],
-            "argv": [tok(t) for t in case["argv"]], "dispatch": case["disp"], "completion": case["comp"]}
+    d = {"mode": cfg["mode"], "root_unknown_mode": cfg["nodes"][0]["um"], "root_require_order": cfg["nodes"][0]["ro"],
+         "argv": [tok(t) for t in case["argv"]], "dispatch": case["disp"], "completion": case["comp"]}
+    if case.get("haspre"):
+        d["earlier_parse_on_same_object"] = [tok(t) for t in case.get("pre", [])]
+    return d
 
 
 def check(prop, tier, seed, work, replay, t0):
